@@ -16,6 +16,14 @@
 (* expired proposal is dead; after it expired the same id starts a NEW     *)
 (* proposal (a new instance, identified by its creation time).             *)
 (*                                                                         *)
+(* Clocks: `now` is the creation date of the BLOCK that carries the        *)
+(* transaction.  A transaction also declares its own creation date, which  *)
+(* the chain accepts anywhere within its transaction time tolerance of the *)
+(* block's (much less than one time unit here), so a vote may be LATE: it  *)
+(* was created before a clock boundary - in particular before the          *)
+(* proposal's expiry - and is carried by a block created at/after it.      *)
+(* Expiry is judged by the block clock only: `late` changes nothing.       *)
+(*                                                                         *)
 (* C21: every proposal instance is executed at most once, only with at     *)
 (* least T distinct registered signers' counted votes; repeated votes do   *)
 (* not count.                                                              *)
@@ -40,7 +48,7 @@ VARIABLES now, registered, bal,
 
 vars == <<now, registered, bal, prop, execs, counted, last>>
 Times == 0..MaxTime
-NoOp == [op |-> "none", paid |-> 0, inst |-> -1]
+NoOp == [op |-> "none", paid |-> 0, inst |-> -1, late |-> FALSE]
 
 Init == /\ now = 0 /\ registered = FALSE /\ bal = InitBal /\ prop = None
         /\ execs = [t \in Times |-> 0] /\ counted = [t \in Times |-> {}] /\ last = NoOp
@@ -51,37 +59,40 @@ Register ==                                         \* sc.go:86-128 (MinSigners 
   /\ UNCHANGED <<now, bal, prop, execs, counted>>
 
 Live == prop # None /\ now < prop.expiry
-Fail == /\ last' = [NoOp EXCEPT !.op = "vote_fail"]           \* chargeable error / rejected: nothing persists
+Fail(late) ==                                       \* chargeable error / rejected: nothing persists
+        /\ last' = [NoOp EXCEPT !.op = "vote_fail", !.late = late]
         /\ UNCHANGED <<now, registered, bal, prop, execs, counted>>
 
 (* sc.go:131-252 *)
-Vote(s, tr, sigok) ==
+\* late: the vote's own creation date lies before the block clock `now` (within the tolerance)
+Vote(s, tr, sigok, late) ==
   LET fresh == prop = None \/ now >= prop.expiry            \* no live proposal: a new instance is created
       p == IF fresh THEN [transfer |-> tr, votes |-> {}, executed |-> FALSE, expiry |-> now + Expiry, born |-> now]
                     ELSE prop
+      R == [NoOp EXCEPT !.late = late]
   IN IF prop # None /\ now >= prop.expiry
        THEN \* expired: the contract prunes it and fails this vote with an error, so the prune is not
             \* persisted; the proposal stays dead until a successful transaction prunes it (Prune)
-            Fail
-     ELSE IF tr # p.transfer THEN Fail                      \* not compatible
-     ELSE IF p.executed THEN /\ last' = [NoOp EXCEPT !.op = "vote_noop"]
+            Fail(late)
+     ELSE IF tr # p.transfer THEN Fail(late)                      \* not compatible
+     ELSE IF p.executed THEN /\ last' = [R EXCEPT !.op = "vote_noop"]
                              /\ UNCHANGED <<now, registered, bal, prop, execs, counted>>
-     ELSE IF ~registered \/ s \notin Signer \/ ~sigok THEN Fail
+     ELSE IF ~registered \/ s \notin Signer \/ ~sigok THEN Fail(late)
      ELSE IF s \in p.votes
-       THEN /\ last' = [NoOp EXCEPT !.op = "vote_dup"]
+       THEN /\ last' = [R EXCEPT !.op = "vote_dup"]
             /\ UNCHANGED <<now, registered, bal, prop, execs, counted>>
      ELSE LET v2 == p.votes \cup {s} IN
           IF Cardinality(v2) < T
             THEN /\ prop' = [p EXCEPT !.votes = v2]
                  /\ counted' = [counted EXCEPT ![p.born] = @ \cup {s}]
-                 /\ last' = [NoOp EXCEPT !.op = "vote_counted", !.inst = p.born]
+                 /\ last' = [R EXCEPT !.op = "vote_counted", !.inst = p.born]
                  /\ UNCHANGED <<now, registered, bal, execs>>
-          ELSE IF tr.amt > bal THEN Fail                    \* the ledger rejects the whole transaction
+          ELSE IF tr.amt > bal THEN Fail(late)                    \* the ledger rejects the whole transaction
           ELSE /\ prop' = [p EXCEPT !.votes = v2, !.executed = TRUE]
                /\ counted' = [counted EXCEPT ![p.born] = @ \cup {s}]
                /\ execs' = [execs EXCEPT ![p.born] = @ + 1]
                /\ bal' = bal - tr.amt
-               /\ last' = [NoOp EXCEPT !.op = "vote_exec", !.paid = tr.amt, !.inst = p.born]
+               /\ last' = [R EXCEPT !.op = "vote_exec", !.paid = tr.amt, !.inst = p.born]
                /\ UNCHANGED <<now, registered>>
 
 Prune ==                                            \* pruneExpirationQueue inside a later successful vote
@@ -93,7 +104,7 @@ Tick(d) == /\ now + d <= MaxTime /\ now' = now + d /\ last' = NoOp
            /\ UNCHANGED <<registered, bal, prop, execs, counted>>
 
 Next == \/ Register \/ Prune
-        \/ \E s \in Signer \cup Stranger, tr \in Transfers, ok \in BOOLEAN : Vote(s, tr, ok)
+        \/ \E s \in Signer \cup Stranger, tr \in Transfers, ok, late \in BOOLEAN : Vote(s, tr, ok, late)
         \/ \E d \in 1..MaxStep : Tick(d)
 Spec == Init /\ [][Next]_vars
 
@@ -106,5 +117,7 @@ C21_Once      == \A t \in Times : execs[t] <= 1
 C21_Threshold == \A t \in Times : execs[t] > 0 => Cardinality(counted[t]) >= T
 C21_Distinct  == \A t \in Times : counted[t] \subseteq Signer
 C21_PaidOnExec == (last.paid > 0) <=> (last.op = "vote_exec")
+\* a vote is counted / executes only while the BLOCK clock is before the instance's expiry, late or not
+C21_BlockClock == (last.op \in {"vote_counted", "vote_exec"}) => now < last.inst + Expiry
 C21_ExecFlag  == prop.executed => (Cardinality(prop.votes) >= T /\ execs[prop.born] = 1)
 =============================================================================
